@@ -12,7 +12,8 @@ open FlooVerif Rtl Hw Gen
 output port"; `Hw.allowed` reads the masking in floo_router as "no loop-back; under XY no turn from North/South
 to East/West"; `Hw.srcPop` relies on `RouteSelWidth = $clog2(NumRoutes)` with `.NumRoutes(NumOutput)`;
 the request destination and the source route come out of floo_route_comp as `Hw.lean` / `Check*.lean` assume
-(`addr_decode` over `addr_map_i`; `route_table_i[id_o]`). -/
+(`addr_decode` over `addr_map_i`; `route_table_i[id_o]`); the chimneys hand the request address to the first
+and the requester's identity to the second `floo_route_comp` (`chimneyComp`). -/
 
 def pin_xyRest : List String := [
     "id_t", "id_in", ";", "assign", "id_in", "=", "id_t", "'(", "channel_i", ".", "hdr", ".", "dst_id", ")",
@@ -108,11 +109,49 @@ def pin_branches : List (List String) := [[
     ], [
       "(", "RouteAlgo", "==", "XYRouting", ")"
     ]]
+def pin_routerDefaults : List String := [
+    "parameter", "bit", "XYRouteOpt", "=", "1'b1", "parameter", "bit", "NoLoopback", "=", "1'b1"
+  ]
+
+def pin_chimneyComp : List (List String) := [[
+      "floo_axi_chimney.sv", "floo_route_comp", "#", "(", ".", "RouteCfg", "(", "RouteCfg", ")", ",", ".",
+      "id_t", "(", "id_t", ")", ",", ".", "addr_t", "(", "axi_addr_t", ")", ",", ".", "addr_rule_t", "(",
+      "sam_rule_t", ")", ",", ".", "route_t", "(", "route_t", ")", ")", "i_floo_req_route_comp", "(", ".",
+      "clk_i", ",", ".", "rst_ni", ",", ".", "route_table_i", ",", ".", "addr_map_i", "(", "Sam", ")", ",",
+      ".", "id_i", "(", "id_t", "'(", "'0", ")", ")", ",", ".", "addr_i", "(", "axi_req_addr", "[", "ch",
+      "]", ")", ",", ".", "route_o", "(", "route_out", "[", "ch", "]", ")", ",", ".", "id_o", "(", "id_out",
+      "[", "ch", "]", ")", ")", ";"
+    ], [
+      "floo_axi_chimney.sv", "floo_route_comp", "#", "(", ".", "RouteCfg", "(", "RouteCfg", ")", ",", ".",
+      "UseIdTable", "(", "1'b0", ")", ",", ".", "id_t", "(", "id_t", ")", ",", ".", "addr_t", "(",
+      "axi_addr_t", ")", ",", ".", "addr_rule_t", "(", "sam_rule_t", ")", ",", ".", "route_t", "(",
+      "route_t", ")", ")", "i_floo_rsp_route_comp", "(", ".", "clk_i", ",", ".", "rst_ni", ",", ".",
+      "route_table_i", ",", ".", "addr_i", "(", "'0", ")", ",", ".", "addr_map_i", "(", "'0", ")", ",", ".",
+      "id_i", "(", "axi_rsp_src_id", "[", "ch", "]", ")", ",", ".", "route_o", "(", "route_out", "[", "ch",
+      "]", ")", ",", ".", "id_o", "(", "id_out", "[", "ch", "]", ")", ")", ";"
+    ], [
+      "floo_nw_chimney.sv", "floo_route_comp", "#", "(", ".", "RouteCfg", "(", "RouteCfg", ")", ",", ".",
+      "id_t", "(", "id_t", ")", ",", ".", "addr_t", "(", "axi_addr_t", ")", ",", ".", "addr_rule_t", "(",
+      "sam_rule_t", ")", ",", ".", "route_t", "(", "route_t", ")", ")", "i_floo_req_route_comp", "(", ".",
+      "clk_i", ",", ".", "rst_ni", ",", ".", "route_table_i", ",", ".", "addr_map_i", "(", "Sam", ")", ",",
+      ".", "id_i", "(", "id_t", "'(", "'0", ")", ")", ",", ".", "addr_i", "(", "axi_req_addr", "[", "ch",
+      "]", ")", ",", ".", "route_o", "(", "route_out", "[", "ch", "]", ")", ",", ".", "id_o", "(", "id_out",
+      "[", "ch", "]", ")", ")", ";"
+    ], [
+      "floo_nw_chimney.sv", "floo_route_comp", "#", "(", ".", "RouteCfg", "(", "RouteCfg", ")", ",", ".",
+      "UseIdTable", "(", "1'b0", ")", ",", ".", "id_t", "(", "id_t", ")", ",", ".", "addr_t", "(",
+      "axi_addr_t", ")", ",", ".", "addr_rule_t", "(", "sam_rule_t", ")", ",", ".", "route_t", "(",
+      "route_t", ")", ")", "i_floo_rsp_route_comp", "(", ".", "clk_i", ",", ".", "rst_ni", ",", ".",
+      "route_table_i", ",", ".", "addr_i", "(", "'0", ")", ",", ".", "addr_map_i", "(", "'0", ")", ",", ".",
+      "id_i", "(", "axi_rsp_src_id", "[", "ch", "]", ")", ",", ".", "route_o", "(", "route_out", "[", "ch",
+      "]", ")", ",", ".", "id_o", "(", "id_out", "[", "ch", "]", ")", ")", ";"
+    ]]
 
 theorem rtl_shape :
     rtlFacts.xyRest = pin_xyRest ∧ rtlFacts.routeSelWidth = pin_routeSelWidth ∧ rtlFacts.branches = pin_branches ∧
     rtlFacts.idBlock = pin_idBlock ∧ rtlFacts.routerSelect = pin_routerSelect ∧ rtlFacts.routerMask = pin_routerMask ∧
-    rtlFacts.compCond = pin_compCond ∧ rtlFacts.compTable = pin_compTable ∧ rtlFacts.compRoute = pin_compRoute := by
+    rtlFacts.compCond = pin_compCond ∧ rtlFacts.compTable = pin_compTable ∧ rtlFacts.compRoute = pin_compRoute ∧
+    rtlFacts.routerDefaults = pin_routerDefaults ∧ rtlFacts.chimneyComp = pin_chimneyComp := by
   decide +kernel
 
 end FlooVerif.HwTie
